@@ -150,6 +150,25 @@ def rule_fixed_width(ctx) -> None:
             chk.decide(ok, "C08.fixed-width", f"{fn.qual} `{norm(c.func.value)}.to_bytes`", f"length `{Li}` comes from the curve, not from the value", f"length `{Li}` does not come from the curve's coordinate size (a value with leading zero bytes would be exported shorter)", "", A.loc(KEYS, c))
     if sites < 5:
         raise AnalysisError(f"C08.fixed-width: only {sites} ECC to_bytes sites found (expected >= 5)")
+    # consumers anywhere in the package that serialise an ECC number (.x / .y / .d of a key) themselves: the width is never the FLOOR of
+    # key_size / 8 (65 for P-521, whose numbers need 66 bytes: to_bytes overflows for most keys and the rest is unparsable)
+    import re as _re
+    ext = 0
+    for fn in CG.all_functions(prog):
+        if fn.module is m:
+            continue
+        for c in [x for x in ast.walk(fn.node) if isinstance(x, ast.Call) and isinstance(x.func, ast.Attribute) and x.func.attr == "to_bytes"
+                  and isinstance(x.func.value, ast.Attribute) and x.func.value.attr in ("x", "y", "d")]:
+            L = A.arg_of(c, 0, "length")
+            if L is None:
+                continue
+            Li = norm(A.inline_locals(fn.node, L))
+            ext += 1
+            chk.decide(not _re.search(r"key_size\s*//\s*8", Li), "C08.fixed-width", f"{fn.qual} `{norm(c.func.value)}.to_bytes`", f"length `{Li}` is not the floor of key_size / 8",
+                       f"length `{Li}` rounds the curve's bit size DOWN: a P-521 number needs 66 bytes, 521 // 8 is 65", "coordinate_size", A.loc(fn.module.relpath, c))
+    chk.extra["ecc_to_bytes_sites_outside_keys"] = ext
+    if ext < 3:
+        raise AnalysisError(f"C08.fixed-width: only {ext} ECC to_bytes sites outside crypto/keys.py found (expected >= 3)")
     # callers of serialize_signature pass the key's coordinate size
     n = 0
     for fn in CG.all_functions(prog):
